@@ -219,11 +219,22 @@ impl<'a> Model<'a> {
                     }
                     return;
                 }
-                if let Some(exp) = self.expected_list(kind, &target, c.invoke_idx) {
+                if let Some(spans) = self.expected_spans(kind, &target, c.invoke_idx) {
+                    let exp: Vec<String> = spans.iter().map(|x| x.2.clone()).collect();
                     let start = (off as usize).min(exp.len());
                     let end = (start + eff_page(size)).min(exp.len());
                     let want: Vec<String> = if off as u128 > exp.len() as u128 { vec![] } else { exp[start..end].to_vec() };
-                    if names != want {
+                    // creations that overlapped have no determined order in the listing: then only
+                    // the size of the page and its membership are checked
+                    let overlapping = spans.iter().enumerate().any(|(i, a)| spans.iter().skip(i + 1).any(|b| !(a.1 < b.0 || b.1 < a.0)));
+                    if overlapping {
+                        let mut uniq: Vec<&String> = names.iter().collect();
+                        uniq.sort();
+                        uniq.dedup();
+                        if names.len() != want.len() || uniq.len() != names.len() || names.iter().any(|n| !exp.contains(n)) {
+                            self.v("token_page_wrong", &["C13"], format!("token with offset {} and page_size {} over a list of {} returned {:?} (a page of {} distinct existing names was expected)", off, size, exp.len(), names, want.len()));
+                        }
+                    } else if names != want {
                         self.v("token_page_wrong", &["C13"], format!("token with offset {} and page_size {} over a list of {} returned {:?}, expected {:?}", off, size, exp.len(), names, want));
                     }
                 }
@@ -824,6 +835,7 @@ pub fn analyze(tr: &Trace) -> Report {
         drain_started: false,
         stuck_reported: false,
         last_qp_idx: 0,
+        ack_prior: HashMap::new(),
         token_format_ok: true,
     };
     // ids are known post-hoc: map them up front so that deliveries racing a publish resolve
